@@ -104,7 +104,7 @@ def s1090(key, sends, expect_names, fd, close=False, allow_unknown=False, nogap=
 
 
 def sradar(key, sends, n_lines_last, expect_tables, retry=False, disconnect=None, after=None, n_after=0,
-           partial=None, partial_gap=False, nogap=False, send_now=False):
+           partial=None, partial_gap=False, nogap=False, send_now=False, extra_argv=()):
     """sends: segments with a gap between (nogap: back-to-back sends instead); disconnect: None | 'exit' | 'retry';
     partial: bytes of an incomplete line sent right before the close (partial_gap: a read timeout elapses first);
     after: bytes sent after the reconnect"""
@@ -117,7 +117,7 @@ def sradar(key, sends, n_lines_last, expect_tables, retry=False, disconnect=None
         steps.append({'op': 'send', 'hex': hexs(seg)})
     steps.append({'op': 'sync', 'n': n_lines_last + 2})
     steps.append({'op': 'snap', 'name': 'table'})
-    argv = list(e4lib.BASE_ARGV)
+    argv = list(e4lib.BASE_ARGV) + list(extra_argv)
     if retry:
         argv.append('--retry-tcp')
     if disconnect is None:
@@ -368,7 +368,11 @@ def enumerate_scripts(tier, fd):
             one = pre + mb + post
             out.append(s1090('1090|mal=%s@%d|same-send' % (name, j), [one], ['L1', 'L2', 'L3'], fd, allow_unknown=True))
             out.append(sradar('radar|mal=%s@%d|same-send' % (name, j), [one], one.count(b'\n'), {'table': alts}))
-    parts['malformed alphabet(%d) x 4 positions x 2 timings x 2 clients' % len(fd.malformed())] = len(out) - n0
+            # the option that looks at the first payload byte before decoding (all feed lines are DF17: same tables)
+            if j in (0, 2):
+                out.append(sradar('radar|mal=%s@%d|same-send|limit-parsing' % (name, j), [one], one.count(b'\n'), {'table': alts},
+                                  extra_argv=['--limit-parsing']))
+    parts['malformed alphabet(%d) x 4 positions x 2 timings x 2 clients (+ radar --limit-parsing at 2 positions)' % len(fd.malformed())] = len(out) - n0
 
     n0 = len(out)
     partial_lens = [1, 2, 3, 30]
